@@ -109,7 +109,22 @@ where
             }
         };
 
-        let x = self.into();
+        let x: CanonicalAssets = self.into();
+
+        // the sum of two amounts of one class must stay within the 128-bit range
+        let overflows = y.iter().any(|(class, amount)| {
+            x.asset_amount(class)
+                .is_some_and(|current| current.checked_add(*amount).is_none())
+        });
+
+        if overflows {
+            return Err(Error::InvalidBinaryOp(
+                "add".to_string(),
+                format!("{x}"),
+                format!("{y}"),
+            ));
+        }
+
         let total = x + y;
         Ok(Expression::Assets(total.into()))
     }
@@ -120,7 +135,13 @@ where
     }
 
     fn neg(self) -> Result<Expression, Error> {
-        let negated = std::ops::Neg::neg(self.into());
+        let x: CanonicalAssets = self.into();
+
+        if x.iter().any(|(_, amount)| amount.checked_neg().is_none()) {
+            return Err(Error::InvalidUnaryOp("neg".to_string(), format!("{x}")));
+        }
+
+        let negated = std::ops::Neg::neg(x);
         Ok(Expression::Assets(negated.into()))
     }
 }
@@ -128,7 +149,9 @@ where
 impl Arithmetic for i128 {
     fn add(self, other: Expression) -> Result<Expression, Error> {
         match other {
-            Expression::Number(y) => Ok(Expression::Number(self + y)),
+            Expression::Number(y) => self.checked_add(y).map(Expression::Number).ok_or_else(|| {
+                Error::InvalidBinaryOp("add".to_string(), format!("{self:?}"), format!("{y:?}"))
+            }),
             Expression::None => Ok(Expression::Number(self)),
             _ => Err(Error::InvalidBinaryOp(
                 "add".to_string(),
@@ -144,7 +167,9 @@ impl Arithmetic for i128 {
     }
 
     fn neg(self) -> Result<Expression, Error> {
-        Ok(Expression::Number(-self))
+        self.checked_neg()
+            .map(Expression::Number)
+            .ok_or_else(|| Error::InvalidUnaryOp("neg".to_string(), format!("{self:?}")))
     }
 }
 
